@@ -1,11 +1,17 @@
 import OnlVerif.Lemmas.GenKernelDefs
 import OnlVerif.Lemmas.KAccess
+import OnlVerif.Generated.KernelCond
 /-!
-# Bridge lemmas: generated `Condition.all_events / any_events / _check` = `evaluate` / `condCheck` of model `K`
+# Bridge lemmas (C05): generated `Condition.all_events / any_events / _check` = `evaluate` / `condCheck` of model `K`
 -/
 
 namespace GenKernel
 variable {τ σ : Type} [Num τ]
+
+/-- `Condition._check(event)` of condition `cx.c` for operand `cx.e` -/
+def runCondCheck (cx : Cx) (s : KState τ σ) : Option (KState τ σ) :=
+  runEff cx (Gen.Condition.check (condObj s cx.c) (s.triggered cx.c) (evOk s cx.e) (condOps s cx.c).1
+    ((condOps s cx.c).2.length : Int)).eff s
 
 theorem evaluate_eq (all : Bool) (n c : Nat) : evaluate all n c = Gen.Condition.evaluate all (n : Int) (c : Int) := by
   unfold evaluate Gen.Condition.evaluate Gen.Condition.all_events Gen.Condition.any_events
